@@ -7,6 +7,7 @@
 package main
 
 import (
+	"context"
 	"fmt"
 	"sort"
 	"strings"
@@ -273,13 +274,15 @@ var allowedLoserCodes = map[codes.Code]bool{
 }
 
 func run(r *vk.Run) {
-	r.Describe("histories of 2-4 concurrent writers on one Value / 1-3 collection ids (Set/Add/Update/Delete/Get with CAS, expected checks, delta interceptors, create-if-absent, generated ids; every written value uniquely tagged) recorded at the call boundary with a logical clock and checked with porcupine against the sequential model, partitioned per id, plus independent conservation checks (sum of successful increments, uniqueness of generated ids, at most one successful Add per absent id). Forced part: victim op x window {gau.afterRead, gau.beforeLock, col.delete.afterRead, col.delete.beforeLock} x interfering op sequence x pre-state, depth 2 with a second victim parked inside the first. Stress part: random histories with pseudo-random yields at all hook points. Distinct = (victim, window, interferer, pre-state) triples reached, resp. distinct outcome vectors of stress histories.",
+	r.Describe("histories of 2-4 concurrent writers on one Value / 1-3 collection ids (Set/Add/Update/Delete/Get with CAS, expected checks, delta interceptors, create-if-absent, generated ids; every written value uniquely tagged) recorded at the call boundary with a logical clock and checked with porcupine against the sequential model, partitioned per id, plus independent conservation checks (sum of successful increments, uniqueness of generated ids, at most one successful Add per absent id). Forced part: victim op x window {gau.afterRead, gau.beforeLock, col.delete.afterRead, col.delete.beforeLock} x interfering op sequence x pre-state, depth 2 with a second victim parked inside the first; plus writer A parked between commit and publication (value.set.beforePublish / col.update.beforePublish) while writer B commits, with and without a live subscriber. Stress part: random histories with pseudo-random yields at all hook points. Distinct = (victim, window, interferer, pre-state) triples reached, resp. distinct outcome vectors of stress histories.",
 		"Aborted/Unavailable are always-legal no-ops; FailedPrecondition/AlreadyExists/NotFound/check errors are legal only in a state that justifies them",
 		"a porcupine timeout (60 s per partition) is inconclusive, never a violation")
 	forced(r)
+	forcedPublish(r)
 	stress(r)
 	counters(r)
 	r.Require("forced-windows-reached", 50)
+	r.Require("forced-publish-windows-reached", 8)
 	r.Require("stress-histories", 100)
 }
 
@@ -462,6 +465,95 @@ func forcedScenario(r *vk.Run, sched *vk.Sched, model *sm.Model, v victimSpec, w
 	judge(r, model, init, g, "C02/forced/"+key, map[string]any{"victim": v.name, "window": w, "interferer": in.name, "pre": preName, "victim2": w2})
 	if r.WantSample("forced-history") {
 		r.Sample("forced-history", renderHistory(g.rec.ops))
+	}
+}
+
+// forcedPublish: writer A is parked after it has committed and before it publishes (value.set.beforePublish /
+// col.update.beforePublish); writer B then runs as far as it gets (it commits and waits for its turn to publish),
+// A is released and both return. What each call returned must still be explainable by one order of the two writes:
+// a result assembled after the commit (re-read state, shared buffers) shows here.
+func forcedPublish(r *vk.Run) {
+	sched := vk.NewSched()
+	defer sched.Close()
+	type wr struct {
+		name string
+		mk   func(g *rig, proc int) sm.Op
+	}
+	delta := sm.Opts{Before: true, HasUpdateMask: true, UpdateMask: []string{"default_int64"}}
+	idx := 0
+	for _, isValue := range []bool{true, false} {
+		window := "col.update.beforePublish"
+		kind := sm.Update
+		if isValue {
+			window, kind = "value.set.beforePublish", sm.Set
+		}
+		ws := []wr{
+			{"delta", func(g *rig, proc int) sm.Op { return sm.Op{Kind: kind, ID: "a", Val: &tat{DefaultInt64: int64(3 + 4*proc)}, Opts: delta} }},
+			{"replace", func(g *rig, proc int) sm.Op { return sm.Op{Kind: kind, ID: "a", Val: g.val3(proc, 1)} }},
+		}
+		for _, a := range ws {
+			for _, b := range ws {
+				for _, withSub := range []bool{false, true} {
+					idx++
+					if !r.Mine(idx) {
+						continue
+					}
+					model := &sm.Model{Cfg: sm.Config{IsValue: isValue, NilWritable: true}, Type: info()}
+					init := sm.State{}
+					id := "a"
+					if isValue {
+						id = ""
+					}
+					init[id] = sm.Item{Msg: &tat{DefaultString: "init", DefaultInt32: 1, DefaultInt64: 100}}
+					g := newRig(model, init, r.Rand("forced-publish"))
+					key := fmt.Sprintf("publish-window/%s+%s@%s", a.name, b.name, window)
+					if !r.Selected("C02/forced/" + key) {
+						continue
+					}
+					cancel := func() {}
+					if withSub {
+						// a subscriber that keeps receiving: publishing has somebody to deliver to
+						ctx, c := context.WithCancel(context.Background())
+						cancel = c
+						if isValue {
+							ch := g.val.Pull(ctx, resource.WithBackpressure(true))
+							go func() {
+								for range ch {
+								}
+							}()
+						} else {
+							ch := g.col.Pull(ctx, resource.WithBackpressure(true))
+							go func() {
+								for range ch {
+								}
+							}()
+						}
+						vk.Quiesce()
+					}
+					pa := sched.ParkAt(window, nil)
+					ta := vk.Go(func() { g.do(0, a.mk(g, 0)) })
+					if !waitArrived(pa, ta) {
+						r.Count("forced-window-not-reached", 1)
+						pa.Release()
+						ta.Wait()
+						cancel()
+						continue
+					}
+					tb := vk.Go(func() { g.do(1, b.mk(g, 1)) })
+					vk.Quiesce()
+					pa.Release()
+					ta.Wait()
+					tb.Wait()
+					g.do(9, sm.Op{Kind: sm.Get, ID: "a"})
+					cancel()
+					r.Eval(1)
+					r.Count("forced-windows-reached", 1)
+					r.Count("forced-publish-windows-reached", 1)
+					r.Distinct(fmt.Sprintf("forced:%s:%v", key, withSub))
+					judge(r, model, init, g, "C02/forced/"+key, map[string]any{"a": a.name, "b": b.name, "window": window, "subscriber": withSub})
+				}
+			}
+		}
 	}
 }
 
